@@ -424,8 +424,13 @@ def is_instance(value: Any, type_: Any) -> bool:
     """
 
     # We do not want Python implicit isinstance(True, int) == True
-    if type_ is int and value is True or value is False:
+    if type_ is int and (value is True or value is False):
         return False
+
+    # Unions are checked member by member. This must come before the plain
+    # isinstance shortcut below, which would accept a bool for an int member
+    if is_union(type_):
+        return any(is_instance(value, t) for t in get_args(type_))
 
     try:
         # As described in PEP 484 - section: "The numeric tower"
